@@ -1,0 +1,20 @@
+//go:build verif
+// +build verif
+
+package crypto
+
+// VerifSetFrameCounters sets the frame counters of a session returned by
+// NewSecureSessionFromSharedKey or NewSecureClientSessionFromSharedKey, as if
+// that many frames had been encrypted and decrypted before. It returns false
+// for any other Cryptographer.
+func VerifSetFrameCounters(c Cryptographer, encrypted, decrypted uint64) bool {
+	s, ok := c.(*secureSession)
+	if !ok {
+		return false
+	}
+
+	s.encryptCount = encrypted
+	s.decryptCount = decrypted
+
+	return true
+}
